@@ -527,6 +527,458 @@ def run (s : State) : List ThreadId → State
 
 end Sig
 
+/-! ## Graph: a DAG of memos over one signal — `update_if_necessary` with its `Check` arm,
+`mark_dirty` / `mark_check` propagation and every `reactivity` lock acquisition as a micro-step
+
+Each thread is an abstract machine with a stack of frames (its continuation).  One micro-step =
+the code from one `reactivity` lock acquisition (or yield point) to the next; a micro-step whose
+lock is taken blocks (the thread stays "in flight").  `value` locks never block here (no user
+guards in this scenario) and are not modelled.  Memo `i` may only read the signal and memos `< i`.
+
+Frames ↔ Rust (`computed/inner.rs` unless said otherwise):
+`uin` = `needs_update`'s first `reactivity.read()`; `ucheck`/`ucheckAfter` = the `Check` arm's
+`any(|source| source.update_if_necessary() || reactivity.read().state == Dirty)`; `uclean` = the
+else branch (`state = Clean`); `utake` = `value.write().take()`; `uclearBegin` = `inner_1`'s read;
+`uclearLock`/`uclearLoop`/`uclearRm` = `Subscriber::clear_sources` → `SourceSet::clear_sources`
+(`graph/sets.rs`; yield `sources:clearing` before each `remove_subscriber`); `ufun`/`utrack2`/
+`ureadVal` = the user function reading its sources with `Observer` = this memo (`traits.rs`
+`Track::track` = `subscriber.add_source` then `source.add_subscriber`, then
+`try_read_untracked` = `update_if_necessary` + `value.read().unwrap()`); `ulock` =
+`reactivity.write()`; `ustore` = store, `state = Clean`, unlock (yield `memo:unlocked`), then
+`mark_dirty` of every subscriber that is not the current `Observer` (`inner_2`); `markDirty`/`markSubsLock`/`markLoop` =
+`mark_dirty` + `mark_subscribers_check` (read lock held over the loop); `markCheck`/`markCheckLock`
+= `mark_check`; `setSig` = `ArcRwSignal::set` (subscriber set cloned, each `mark_dirty`). -/
+namespace Graph
+
+inductive Src where
+  | sig | memo (j : Nat)
+  deriving DecidableEq, Repr
+
+inductive Fn where
+  | mul (c : Nat) | add (c : Nat) | div (c : Nat) | plus
+  deriving DecidableEq, Repr
+
+structure Def where
+  f : Fn
+  reads : List Src
+  deriving DecidableEq, Repr
+
+def applyFn (f : Fn) (a : List Nat) : Nat :=
+  match f with
+  | .mul c => a.getD 0 0 * c
+  | .add c => a.getD 0 0 + c
+  | .div c => a.getD 0 0 / c
+  | .plus => a.getD 0 0 + a.getD 1 0
+
+inductive St where
+  | clean | check | dirty
+  deriving DecidableEq, Repr
+
+structure MemoSt where
+  st : St := .dirty
+  value : Option Nat := none
+  sources : List Src := []
+  subs : List Nat := []
+  /-- `reactivity` write holder (thread id) -/
+  w : Option Nat := none
+  /-- `reactivity` read holders -/
+  r : List Nat := []
+  deriving DecidableEq, Repr
+
+inductive YName where
+  | opStart | beforeTake | taken | cleared | beforeReactivity | reactivityHeld | unlocked | released | clearing
+  deriving DecidableEq, Repr
+
+inductive Op where
+  | get (m : Nat) | set (v : Nat)
+  deriving DecidableEq, Repr
+
+inductive Res where
+  | val (n : Nat) | unit | panic
+  deriving DecidableEq, Repr
+
+inductive Frame where
+  | yld (y : YName)
+  | uin (m : Nat)
+  | ucheck (m : Nat) (rest : List Src)
+  | ucheckAfter (m : Nat) (rest : List Src)
+  | uclean (m : Nat)
+  | utake (m : Nat)
+  | uclearBegin (m : Nat) (old : Option Nat)
+  | uclearLock (m : Nat) (old : Option Nat)
+  | uclearLoop (m : Nat) (old : Option Nat) (rest : List Src)
+  | uclearRm (m : Nat) (old : Option Nat) (src : Src) (rest : List Src)
+  | ufunBegin (m : Nat) (old : Option Nat)
+  | ufun (m : Nat) (old : Option Nat) (reads : List Src) (acc : List Nat)
+  | utrack2 (m : Nat) (old : Option Nat) (src : Src) (reads : List Src) (acc : List Nat)
+  | ureadVal (m : Nat) (old : Option Nat) (j : Nat) (reads : List Src) (acc : List Nat)
+  | ulock (m : Nat) (new : Nat) (changed : Bool)
+  | ustore (m : Nat) (new : Nat) (changed : Bool)
+  | uret (changed : Bool)
+  | markDirty (m : Nat)
+  | markSubsLock (m : Nat)
+  | markLoop (m : Nat) (rest : List Nat)
+  | markCheck (m : Nat)
+  | markCheckLock (m : Nat)
+  | setSig (v : Nat)
+  | readOut (m : Nat)
+  | opEnd
+  deriving DecidableEq, Repr
+
+structure Thread where
+  prog : List Op := []
+  k : Nat := 0
+  frames : List Frame := []
+  /-- the thread-local `Observer` stack (top first) -/
+  obs : List Nat := []
+  /-- return value of the last `update_if_necessary` -/
+  ret : Bool := false
+  cur : Res := .unit
+  results : List Res := []
+  inflight : Bool := false
+  deriving DecidableEq, Repr
+
+structure State where
+  n : Nat
+  defs : List Def
+  gateM : Bool
+  gateL : Bool
+  /-- `false` = the repaired `Subscriber::clear_sources` (F-C19-6): the sources are taken out under
+  the subscriber's own write lock and unsubscribed after releasing it; `true` = the code before the
+  repair (`initOld`): the lock is held while each source is locked -/
+  clearHolds : Bool := false
+  /-- final read-back by the main thread: no yield point parks -/
+  finalMode : Bool := false
+  sig : Nat := 1
+  sigSubs : List Nat := []
+  ms : Nat → MemoSt := fun _ => {}
+  ts : Nat → Thread
+
+def opFrames : Op → List Frame
+  | .get m => [.uin m, .readOut m]
+  | .set v => [.setSig v]
+
+/-- load the frames of op `k` (a harness-level yield point precedes every op) -/
+def loadOp (th : Thread) : Thread :=
+  match th.prog[th.k]? with
+  | none => { th with frames := [] }
+  | some op => { th with frames := .yld .opStart :: opFrames op ++ [.opEnd] }
+
+def gated (s : State) : YName → Bool
+  | .opStart => !s.finalMode
+  | .clearing => s.gateL && !s.finalMode
+  | _ => s.gateM && !s.finalMode
+
+def setM (s : State) (m : Nat) (x : MemoSt) : State := { s with ms := upd s.ms m x }
+def setT (s : State) (t : Nat) (x : Thread) : State := { s with ts := upd s.ts t x }
+
+def canR (s : State) (m : Nat) : Bool := (s.ms m).w == none
+def canW (s : State) (m : Nat) : Bool := (s.ms m).w == none && (s.ms m).r == []
+
+def subscribe (l : List Nat) (m : Nat) : List Nat := if l.contains m then l else l ++ [m]
+
+def recompute (m : Nat) : List Frame := [.yld .beforeTake, .utake m]
+
+def marks (subs : List Nat) : List Frame := subs.flatMap fun sub => [.markDirty sub, .markSubsLock sub]
+
+/-- frames up to (not including) the op's `opEnd` are dropped: a panic unwinds the operation -/
+def unwind : List Frame → List Frame
+  | [] => []
+  | .opEnd :: rest => .opEnd :: rest
+  | _ :: rest => unwind rest
+
+/-- one micro-step of thread `t` (its head frame is not a yield); `none` = blocked on a lock -/
+def exec (s : State) (t : Nat) : Option State :=
+  let th := s.ts t
+  match th.frames with
+  | [] => none
+  | fr :: rest =>
+    let go (s : State) (th : Thread) (frames : List Frame) : Option State :=
+      some (setT s t { th with frames })
+    match fr with
+    | .yld _ => go s th rest
+    | .uin m =>
+      if !canR s m then none else
+      match (s.ms m).st with
+      | .clean => go s th (.uclean m :: rest)
+      | .dirty => go s th (recompute m ++ rest)
+      | .check => go s th (.ucheck m (s.ms m).sources :: rest)
+    | .ucheck m [] => go s th (.uclean m :: rest)
+    | .ucheck m (.sig :: more) => go s { th with ret := false } (.ucheckAfter m more :: rest)
+    | .ucheck m (.memo j :: more) => go s th (.uin j :: .ucheckAfter m more :: rest)
+    | .ucheckAfter m more =>
+      if th.ret then go s th (recompute m ++ rest)
+      else if !canR s m then none
+      else if (s.ms m).st == .dirty then go s th (recompute m ++ rest)
+      else go s th (.ucheck m more :: rest)
+    | .uclean m =>
+      if !canW s m then none else
+      go (setM s m { s.ms m with st := .clean }) { th with ret := false } rest
+    | .utake m =>
+      go (setM s m { s.ms m with value := none }) th
+        (.yld .taken :: .uclearBegin m (s.ms m).value :: rest)
+    | .uclearBegin m old => if !canR s m then none else go s th (.uclearLock m old :: rest)
+    | .uclearLock m old =>
+      if !canW s m then none else
+      go (setM s m { s.ms m with sources := [], w := if s.clearHolds then some t else none }) th
+        (.uclearLoop m old (s.ms m).sources :: rest)
+    | .uclearLoop m old [] =>
+      go (setM s m { s.ms m with w := none }) th (.yld .cleared :: .ufunBegin m old :: rest)
+    | .ufunBegin m old =>
+      go s { th with obs := m :: th.obs }
+        (.ufun m old ((s.defs.getD m { f := .plus, reads := [] }).reads) [] :: rest)
+    | .uclearLoop m old (src :: more) => go s th (.yld .clearing :: .uclearRm m old src more :: rest)
+    | .uclearRm m old .sig more =>
+      go { s with sigSubs := s.sigSubs.filter (· != m) } th (.uclearLoop m old more :: rest)
+    | .uclearRm m old (.memo j) more =>
+      if !canW s j then none else
+      go (setM s j { s.ms j with subs := (s.ms j).subs.filter (· != m) }) th (.uclearLoop m old more :: rest)
+    | .ufun m old [] acc =>
+      let new := applyFn (s.defs.getD m { f := .plus, reads := [] }).f acc
+      go s { th with obs := th.obs.drop 1 } (.yld .beforeReactivity :: .ulock m new (old != some new) :: rest)
+    | .ufun m old (src :: more) acc =>
+      if !canW s m then none else
+      go (setM s m { s.ms m with sources := (s.ms m).sources ++ [src] }) th (.utrack2 m old src more acc :: rest)
+    | .utrack2 m old .sig more acc =>
+      go { s with sigSubs := subscribe s.sigSubs m } th (.ufun m old more (acc ++ [s.sig]) :: rest)
+    | .utrack2 m old (.memo j) more acc =>
+      if !canW s j then none else
+      go (setM s j { s.ms j with subs := subscribe (s.ms j).subs m }) th
+        (.uin j :: .ureadVal m old j more acc :: rest)
+    | .ureadVal m old j more acc =>
+      match (s.ms j).value with
+      | some v => go s th (.ufun m old more (acc ++ [v]) :: rest)
+      | none => go s { th with cur := .panic, obs := [] } (unwind rest)
+    | .ulock m new ch =>
+      if !canW s m then none else
+      go (setM s m { s.ms m with w := some t }) th (.yld .reactivityHeld :: .ustore m new ch :: rest)
+    | .ustore m new ch =>
+      let subs := if ch then (s.ms m).subs.filter (fun sub => th.obs.head? != some sub) else []
+      go (setM s m { s.ms m with value := some new, st := .clean, w := none }) th
+        ((if ch then [.yld .unlocked] else []) ++ marks subs ++ [.yld .released, .uret ch] ++ rest)
+    | .uret ch => go s { th with ret := ch } rest
+    | .markDirty m =>
+      if !canW s m then none else go (setM s m { s.ms m with st := .dirty }) th rest
+    | .markSubsLock m =>
+      if !canR s m then none else
+      go (setM s m { s.ms m with r := t :: (s.ms m).r }) th (.markLoop m (s.ms m).subs :: rest)
+    | .markLoop m [] => go (setM s m { s.ms m with r := (s.ms m).r.erase t }) th rest
+    | .markLoop m (sub :: more) => go s th (.markCheck sub :: .markCheckLock sub :: .markLoop m more :: rest)
+    | .markCheck m =>
+      if !canW s m then none else
+      go (setM s m { s.ms m with st := if (s.ms m).st == .dirty then .dirty else .check }) th rest
+    | .markCheckLock m =>
+      if !canR s m then none else
+      go (setM s m { s.ms m with r := t :: (s.ms m).r }) th (.markLoop m (s.ms m).subs :: rest)
+    | .setSig v => go { s with sig := v } { th with cur := .unit } (marks s.sigSubs ++ rest)
+    | .readOut m =>
+      match (s.ms m).value with
+      | some v => go s { th with cur := .val v } rest
+      | none => go s { th with cur := .panic } rest
+    | .opEnd =>
+      some (setT s t (loadOp { th with results := th.results ++ [th.cur], k := th.k + 1, frames := [] }))
+
+def finished (th : Thread) : Bool := th.frames.isEmpty
+
+/-- run thread `t` until it parks at a gated yield point, finishes or blocks -/
+def cont : Nat → State → Nat → State
+  | 0, s, _ => s
+  | fuel + 1, s, t =>
+    let th := s.ts t
+    match th.frames with
+    | [] => setT s t { th with inflight := false }
+    | .yld y :: rest =>
+      if gated s y then setT s t { th with inflight := false }
+      else cont fuel (setT s t { th with frames := rest }) t
+    | _ =>
+      match exec s t with
+      | none => setT s t { th with inflight := true }
+      | some s' => cont fuel s' t
+
+def fuel : Nat := 600
+
+/-- the controller grants thread `t` its turn: leave the yield point it is parked at and run on -/
+def grant (s : State) (t : Nat) : State :=
+  let th := s.ts t
+  match th.frames with
+  | .yld _ :: rest => cont fuel (setT s t { th with frames := rest }) t
+  | _ => cont fuel s t
+
+def settlePass (s : State) : Nat → State
+  | 0 => s
+  | j + 1 =>
+    let s := settlePass s j
+    if (s.ts j).inflight then cont fuel s j else s
+
+def settle (s : State) : Nat → State
+  | 0 => s
+  | r + 1 => settle (settlePass s s.n) r
+
+def step (s : State) (t : ThreadId) : State :=
+  let th := s.ts t
+  if t ≥ s.n || finished th || th.inflight then s
+  else settle (grant s t) (s.n + 1)
+
+def run (s : State) : List ThreadId → State
+  | [] => s
+  | t :: ts => run (step s t) ts
+
+def init (defs : List Def) (gateM gateL : Bool) (progs : List (List Op)) : State :=
+  { n := progs.length, defs, gateM, gateL
+    ts := fun i => loadOp { prog := progs.getD i [] } }
+
+/-- the main thread reads every memo in index order, nothing parks (used for the initial `clean`
+state and for the read-back after the run); its results are appended to thread `s.n`'s -/
+def readAll (s : State) : State :=
+  let k := s.defs.length
+  let s1 := { s with finalMode := true }
+  let s2 := setT s1 s.n (loadOp { prog := (List.range k).map Op.get })
+  let s3 := cont (fuel * (k + 1)) s2 s.n
+  { s3 with finalMode := false }
+
+def initClean (defs : List Def) (gateM gateL : Bool) (progs : List (List Op)) : State :=
+  let s := readAll (init defs gateM gateL progs)
+  setT s s.n {}
+
+/-- the code before the repair of F-C19-6 -/
+def initOld (defs : List Def) (gateM gateL : Bool) (progs : List (List Op)) : State :=
+  { init defs gateM gateL progs with clearHolds := true }
+
+def initCleanOld (defs : List Def) (gateM gateL : Bool) (progs : List (List Op)) : State :=
+  let s := readAll (initOld defs gateM gateL progs)
+  setT s s.n {}
+
+def allFinished (s : State) : Nat → Bool
+  | 0 => true
+  | j + 1 => finished (s.ts j) && allFinished s j
+
+/-- from-scratch values of all memos for a signal value -/
+def scratch (defs : List Def) (sig : Nat) : List Nat :=
+  defs.foldl (fun vals d =>
+    vals ++ [applyFn d.f (d.reads.map fun src => match src with | .sig => sig | .memo j => vals.getD j 0)]) []
+
+end Graph
+
+/-! ## Notify: concurrent `notify_subs` on one async derived (`arc_async_derived.rs`)
+
+`notify_subs` saves the derived's state, sets it to `Notifying` (while it notifies, `mark_dirty`
+is ignored) and restores the saved state at its end.  Caller 0 is the derived's own task
+(`set_inner_value`), the others call the public `Notify::notify`.  Steps = the code between the
+yield points `notify_subs:{enter,stored,drained}`.  `post` = after every caller has returned, the
+derived's source is written: `mark_dirty` must take effect (the derived loads again). -/
+namespace Notify
+
+inductive DSt where
+  | clean | dirty | notifying
+  deriving DecidableEq, Repr
+
+inductive CPc where
+  | start | entered | stored | drained | post | done
+  deriving DecidableEq, Repr
+
+structure Caller where
+  pc : CPc := .start
+  prev : DSt := .clean
+  deriving DecidableEq, Repr
+
+structure State where
+  /-- number of `notify()` callers (threads 1..k) -/
+  k : Nat
+  /-- `true` = repaired code (F-C19-7): a caller that saved `Notifying` does not write it back;
+  `false` = the code before the repair -/
+  guardRestore : Bool
+  dstate : DSt := .clean
+  cs : Nat → Caller := fun _ => {}
+  reloaded : Bool := false
+
+def init (guardRestore : Bool) (k : Nat) : State := { k, guardRestore }
+
+def othersDone (s : State) : Nat → Bool
+  | 0 => true
+  | j + 1 => (s.cs (j + 1)).pc == .done && othersDone s j
+
+def step (s : State) (t : ThreadId) : State :=
+  let c := s.cs t
+  match c.pc with
+  | .start => { s with cs := upd s.cs t { c with pc := .entered } }
+  | .entered => { s with cs := upd s.cs t { c with pc := .stored } }
+  | .stored => { s with dstate := .notifying, cs := upd s.cs t { c with pc := .drained, prev := s.dstate } }
+  | .drained =>
+    { s with
+      dstate := if s.guardRestore && c.prev == .notifying then s.dstate else c.prev
+      cs := upd s.cs t { c with pc := if t = 0 then .post else .done } }
+  | .post =>
+    if othersDone s s.k then
+      -- the source is written: `mark_dirty` is ignored while the state is `Notifying`
+      { s with reloaded := s.dstate != .notifying
+               dstate := if s.dstate == .notifying then .notifying else .clean
+               cs := upd s.cs t { c with pc := .done } }
+    else s
+  | .done => s
+
+def run (s : State) : List ThreadId → State
+  | [] => s
+  | t :: ts => run (step s t) ts
+
+end Notify
+
+/-! ## AwaitW: awaiting a loaded async derived while another thread writes it
+
+Thread 0 is inside `derived.update(|v| ..)`: `Write::try_write` takes the value's async lock with
+`blocking_write` and keeps it for the closure; thread 1 polls.  `AsyncDerivedFuture::poll` /
+`AsyncDerivedRefFuture::poll` with `loading = false` and the read lock not available take the
+`(_, Poll::Pending)` arm: return `Pending` and drop the `read_arc()` future — i.e. the only
+registration of the task's waker.  `AsyncDerivedReadyFuture` does not touch the value lock. -/
+namespace AwaitW
+
+inductive WPc where
+  | start | inUpdate | done
+  deriving DecidableEq, Repr
+
+inductive APc where
+  | start | parked | ready | gaveUp
+  deriving DecidableEq, Repr
+
+structure State where
+  /-- 0 = `ready()`, 1 = by value, 2 = by ref -/
+  kind : Nat
+  wpc : WPc := .start
+  value : Nat := 7
+  apc : APc := .start
+  woken : Bool := false
+  polls : Nat
+  pendings : Nat := 0
+  got : Nat := 0
+
+def init (kind polls : Nat) : State := { kind, polls }
+
+def step (s : State) (t : ThreadId) : State :=
+  match t with
+  | 0 =>
+    match s.wpc with
+    | .start => { s with wpc := .inUpdate, value := 9 }
+    | .inUpdate => { s with wpc := .done }   -- guard dropped, `notify_subs` drains an empty waker list
+    | .done => s
+  | 1 =>
+    let poll (s : State) : State :=
+      if s.polls = 0 then { s with apc := .gaveUp }
+      else if s.kind != 0 && s.wpc == .inUpdate then
+        { s with polls := s.polls - 1, pendings := s.pendings + 1, apc := .parked }
+      else { s with polls := s.polls - 1, apc := .ready, got := s.value }
+    match s.apc with
+    | .start => poll s
+    | .parked => if s.woken then poll { s with woken := false } else s
+    | _ => s
+  | _ => s
+
+def run (s : State) : List ThreadId → State
+  | [] => s
+  | t :: ts => run (step s t) ts
+
+def lost (s : State) : Bool := s.apc == .parked && !s.woken && s.wpc == .done
+
+end AwaitW
+
 /-- the tail both sides append to every schedule: 3 rounds of 8 entries per party -/
 def tail (n : Nat) : List ThreadId :=
   let round := (List.range n).flatMap fun t => List.replicate 8 t
